@@ -28,7 +28,10 @@ def upd {α : Type} (f : Nat → α) (b : Nat) (v : α) : Nat → α := fun x =>
 
 def tail (d : DSt) : String :=
   let mu := if d.s.capMu.isSome then "held" else "free"
-  s!"m={matching d.s} mu={mu}" ++ (if matching d.s > d.s.max then "\t#F:C12-count-before-capmu" else "")
+  let fid := if !d.cfg.countAfterLock then "C12-count-before-capmu"
+    else if !d.cfg.createPreFalse then "C12-create-counts-as-prematched"
+    else "C12-patchexpired-releases-capmu-early"
+  s!"m={matching d.s} mu={mu}" ++ (if matching d.s > d.s.max then "\t#F:" ++ fid else "")
 
 def act (d : DSt) (a : Act) : Option DSt :=
   (step d.cfg d.s a).map fun s' => { d with s := s' }
